@@ -51,6 +51,8 @@ inductive Op where
   | connect (timeo : Bool) (addrs : List Connect.AddrOutcome)
   | cancelc
   | spin
+  /-- environment: the descriptor number the next `socket()` returns (0 = a daemon that closed stdin) -/
+  | fdbase (n : Nat)
 
 /-- a callback that ran during a `spin` (L1) -/
 inductive Completion where
@@ -154,6 +156,7 @@ def stepOp (s : St) : Op → St × Out
       if s.conn.isSome then (s, .busy) else
       let (evs, st, fd') := Connect.tryconnect (addrs.take maxAddrs) 0 s.nextfd
       ({ s with conn := some (timeo, st), connEvs := s.connEvs ++ evs, nextfd := fd' }, .ok)
+  | .fdbase n => ({ s with nextfd := n }, .ok)
   | .cancelc =>
       match s.conn with
       | some (_, st) => ({ s with conn := none, connEvs := s.connEvs ++ Connect.cancel st }, .ok)
